@@ -1525,6 +1525,18 @@ impl AuthSession {
         webauthn: &Webauthn,
         pw_badlist: &HashSet<String>,
     ) -> Result<AuthState, OperationError> {
+        // The validity window was checked when the session was created; the session can live
+        // for minutes, so check it again at every credential step: an account that expired in
+        // between must not be told "success".
+        if matches!(self.state, AuthSessionState::InProgress(_))
+            && !self.account.is_within_valid_time(time)
+        {
+            security_info!("account expired");
+            let mut next_state = AuthSessionState::Denied(ACCOUNT_EXPIRED);
+            std::mem::swap(&mut self.state, &mut next_state);
+            return Ok(AuthState::Denied(ACCOUNT_EXPIRED.to_string()));
+        }
+
         let (next_state, response) = match &mut self.state {
             AuthSessionState::Init(_) | AuthSessionState::Success | AuthSessionState::Denied(_) => {
                 return Err(OperationError::InvalidAuthState(
